@@ -125,6 +125,21 @@ CLAIMED['C09'] = {
             'sampled, not verified; the rule "variables inside PanelLikelihoodTrajectory" is C12\'s.',
 }
 
+CLAIMED['C17'] = {
+    'technique': 'Rocq proof about hand-written Gallina tree builders (tie B, structural) + definitions regenerated from source (tie A); engine values vs proved enclosures and exact closed forms',
+    'text': ('Theorems over the reals, for all arguments: the piecewise variables of every valid sorted threshold list sum to the clipped distance from the '
+             'first threshold (and the open-end variants); the piecewise_formula tree evaluates to what piecewise_function (translated from piecewise.py on every '
+             'run) returns; piecewise_as_variable equals x_T1 + sum beta_i x_Ti; the Box-Cox tree is (x^l-1)/l off |l| < 1e-5 and the series with coefficients '
+             'ln^{k+1}x/(k+1)! inside, continuous at l = 0 with value ln x; normal, lognormal, uniform, triangular and logistic trees equal the textbook formulas '
+             '(constant 2.506628275 costs <= 2e-10 relative); uniform and triangular integrate to one; logistic CDF has limits 0, 1 and its derivative is its density; '
+             'the regression likelihood is the normal log density; segmented parameters equal beta_ref plus the segment shift; nested-logit correlation is '
+             '1 - 1/mu_m^2 within a nest, 0 across, 1 on the diagonal (entry formula translated from nests.py). Ties: every builder compared node-for-node with the '
+             'Python builder (expr_eqb in Coq); piecewise_function, exec(segmented_code()) and correlation() against exact rational evaluation; engine values against '
+             'interval enclosures of evalX and the closed forms, including l within 2e-5 of the switch. PARTIAL: normal/lognormal integrate-to-one reduced to the '
+             'Gaussian integral (assumed); the Box-Cox jump at |l| = 1e-5 bounded only numerically.'),
+    'note': KERNEL + 'py2v and the specialised extractor in lib/props/C17.py; the expression bridge; evalI soundness (Proofs/EvalIP.v); PhiI_series trusted for normal CDF values.',
+}
+
 _NOT_YET = 'check not built yet in this session (framework under construction); no claim made'
 NOT_APPLICABLE = {p: _NOT_YET for p in
                   ['C01', 'C02', 'C03', 'C04', 'C05', 'C06', 'C07', 'C08', 'C09', 'C10', 'C11', 'C12', 'C13',
